@@ -46,6 +46,7 @@ fn run_job(job: &Sexp) -> String {
         "scan" => front::job_scan(job),
         "pretty" => front::job_pretty(job),
         "front" => front::job_front(job),
+        "pexpr" => front::job_pexpr(job),
         "consts" => consts::job_consts(job),
         "opprog" => opprog::job_opprog(job),
         "sortnet" => sortnet::job_sortnet(job),
